@@ -264,7 +264,7 @@ fn built_strategy() -> BoxedStrategy<BuiltCase> {
 }
 
 fn check_built(c: &BuiltCase, ctx: &Ctx) -> Outcome {
-    let (_a, samples) = gen::materialise_set(&c.set);
+    let (_a, samples) = gen::materialise_set_plain(&c.set);
     let (k, rc) = (c.set.k, c.set.rc);
     let (_d, t) = model_table(&samples, k, rc);
     if t.rows.values().flatten().any(|b| model::sym_is_ambig(*b)) {
